@@ -13,7 +13,7 @@ META = {
 SCENS = {1: ("selfdereg", [0]), 2: ("selfstop", [0]), 3: ("unsub-inflight", [0, 1]), 4: ("retain-evt", [0, 1, 2]),
          5: ("zombie", [0]), 6: ("sender-gone", [0]), 7: ("stash-stop", [0, 1]), 8: ("replace", [0]), 9: ("burst", [0]),
          10: ("ctx-autorelease-in-cb", [0]), 11: ("task-after-stop", [0, 1])}
-KF = {}
+KF = {(11, 0): ["task-outlives-source"], (11, 1): ["task-outlives-source"]}
 
 
 def jobs(tier):
